@@ -492,7 +492,7 @@ pub fn gen_scenario(run_seed: u64, variant: &str, tier: Tier) -> E2Scenario {
             let kind = *rf.pick(&["truncate", "truncate", "truncate", "bitflip", "bitflip", "splice", "empty", "badutf8", "unispace", "unispace", "token_subst", "token_subst", "token_insert", "token_insert", "paste_spread", "vanish", "unreadable"]);
             corruptions.push(Corruption { path: p, kind: kind.into(), a: rf.below(len), b: rf.below(8) });
         }
-        if tier == Tier::Thorough && rf.chance(1, 12) {
+        if tier == Tier::Thorough && rf.chance(1, 30) {
             // every prefix of one (small) input: a write torn at any byte
             let mut small: Vec<&String> = tree.keys().filter(|p| tree[*p].len() <= 600).collect();
             small.sort();
